@@ -50,8 +50,9 @@ Proof. intros Hwf s. apply (killed_trace_is_prefix_of_execution true cap ops sch
 (* non-vacuity: two nested calls with argument and return-value payloads, a 64-byte buffer (one
    or two records per buffer, so buffers are switched and re-used), recorder steps interleaved *)
 Definition nv_ops : list op :=
-  [OEnter 4096 1000 [1; 2; 3; 4; 5; 6; 7; 8]%N; OEnter 4352 1100 []; OExit 1200 [];
-   OEnter 4608 1300 [7; 7; 7; 7]%N; OExit 1400 []; OExit 1500 [9; 9; 9; 9]%N].
+  [OEnter 4096 1000 [1; 2; 3; 4; 5; 6; 7; 8]%N false; OEnter 4352 1100 [] false; OExit 1200 [];
+   OEnter 4864 1250 [] true; OExit 1260 [];
+   OEnter 4608 1300 [7; 7; 7; 7]%N false; OExit 1400 []; OExit 1500 [9; 9; 9; 9]%N].
 Definition nv_sched : list lab :=
   repeat LP 20 ++ [LR; LR; LW] ++ repeat LP 25 ++ [LR; LW; LR; LR; LW] ++ repeat LP 40.
 Example nv_complete :
